@@ -116,6 +116,36 @@ fn problems() -> Vec<Prob> {
         let pm = p_menu(n);
         out.push(planted(&l, n, 5, 0, 1, 2, &pm[pm.len() - 1], true));
         out.push(planted(&l, n, 1, 1, 0, 1, &pm[0], false));
+        // a badly scaled twin (equivalent by a change of variables and positive row scalings of
+        // scalar cones), so that the stored equilibration is not the identity
+        let mut t = planted(&l, n, 5, 0, 1, 2, &pm[pm.len() - 1], false);
+        let cs = [0.5, 9.0, 2.0];
+        for j in 0..t.n {
+            for i in 0..t.m {
+                let v = t.a.at(i, j);
+                t.a.set(i, j, v * cs[j % 3]);
+            }
+            t.q[j] *= cs[j % 3];
+            for i in 0..t.n {
+                let v = t.p.at(i, j);
+                t.p.set(i, j, v * cs[j % 3] * cs[i % 3]);
+            }
+        }
+        let rs = [7.0, 0.125, 30.0, 1.0, 0.02];
+        let mut off = 0;
+        for c in &t.cones.clone() {
+            if matches!(c, Zero(_) | NN(_)) {
+                for i in off..off + c.numel() {
+                    for j in 0..t.n {
+                        let v = t.a.at(i, j);
+                        t.a.set(i, j, v * rs[i % 5]);
+                    }
+                    t.b[i] *= rs[i % 5];
+                }
+            }
+            off += c.numel();
+        }
+        out.push(t);
     }
     // extreme finite values and an empty A
     let mut p = planted(&[NN(2)], 2, 5, 0, 0, 1, &Dense::eye(2), false);
@@ -186,6 +216,36 @@ impl Space for RoundTrip {
     }
     fn bound(&self) -> Value {
         json!({"problems": problems().len(), "settings_fields": settings_variants().len(), "fields_changed_at_a_time": if self.pairs {2} else {1}})
+    }
+    fn debug(&self, id: u64) -> String {
+        let (pid, presolve_active, _ov, _slot, _) = self.decode(id);
+        let mut p = problems()[pid].clone();
+        let mut st = DefaultSettings::<f64>::default();
+        st.verbose = false;
+        if presolve_active {
+            let mut off = 0;
+            for c in &p.cones {
+                if matches!(c, ConeSpec::NN(k) if *k > 0) {
+                    p.b[off] = 1e20;
+                    break;
+                }
+                off += c.numel();
+            }
+        }
+        let mut solver = p.build(st);
+        let bytes = save_bytes(&solver).unwrap();
+        let mut loaded = load_bytes(&bytes, None).unwrap().unwrap();
+        solver.solve();
+        loaded.solve();
+        format!(
+            "e={:?}\nfile={}\noriginal: {:?} {} | loaded: {:?} {}",
+            solver.data.equilibration.e,
+            String::from_utf8_lossy(&bytes),
+            solver.solution.status,
+            solver.solution.obj_val,
+            loaded.solution.status,
+            loaded.solution.obj_val
+        )
     }
     fn run(&self, id: u64, ctx: &mut Ctx) -> CaseResult {
         let (pid, presolve_active, override_at_load, slot, _) = self.decode(id);
